@@ -223,6 +223,18 @@ def cases(tier, what="forward"):
         for s2 in lattice.shapes(2):
             if lattice.broadcast_shape(s, s2) is not None:
                 add("add_fn", [s, s2]); add("mul_fn", [s, s2])
+                # operands containing exact zeros (differentiable there): mul / add / sub, and division of a zero numerator
+                for o in ("add", "sub", "mul"):
+                    add(o, [s, s2], pats=["with_zeros", "with_zeros"])
+                add("div", [s, s2], pats=["with_zeros", "generic"])
+    for s in lattice.shapes(2) + [(2, 3, 2)]:
+        for n in (1, 2, 3):
+            add("pow", [s], {"n": n}, pats=["with_zeros"])
+        add("exp", [s], pats=["with_zeros"]); add("neg", [s], pats=["with_zeros"])
+        for d in [None] + lattice.dims(len(s)):
+            add("sum", [s], {"dim": d, "keepdims": False}, pats=["with_zeros"]); add("mean", [s], {"dim": d, "keepdims": True}, pats=["with_zeros"])
+    for m, k, n in ((2, 2, 2), (1, 3, 2), (3, 1, 1)):
+        add("matmul", [(m, k), (k, n)], pats=["with_zeros", "with_zeros"])
     for s in SS:
         for o in ("addc", "radd", "subc", "rsub", "mulc", "rmul", "divc", "rdiv"):
             for c in (2.5, -3, 0.25):
